@@ -78,14 +78,16 @@ def build(name, mk):
     return crystal.Crystal(latt, basis, list(base.chemistry), noreduce=True)
 
 
-QUICK_SKIP_BIG = {'PYROPE', 'HCP_OT', 'BCC_T'}   # many-atom crystals: fewer re-descriptions in quick (listed in BOUNDS)
-THOROUGH_SHORT = QUICK_SKIP_BIG | {'PEROV3', 'TETP3', 'NBO', 'FCC_OT'}   # thorough uses the quick matrix list for these
+# quick tier: crystals with several species (large obstruction alphabets) or many mobile atoms get 4 re-descriptions
+# instead of 9 (the lists are written into BOUNDS); thorough: THOROUGH_SHORT crystals use the full quick list
+QUICK_SHORT = {'PYROPE', 'HCP_OT', 'BCC_T', 'PEROV3', 'TETP3', 'NBO', 'FCC_OT', 'FCC_O', 'FCC_T', 'BCC_O', 'B2AB', 'WURTZ2'}
+THOROUGH_SHORT = {'PYROPE', 'HCP_OT', 'BCC_T', 'PEROV3', 'TETP3', 'NBO', 'FCC_OT'}
 
 
 def matrices_for(name, dim, tier):
     if tier == 'quick':
         ms = [bv.mkey(M) for M in bv.redescriptions(dim, 'quick')]
-        if name in QUICK_SKIP_BIG: ms = ms[:2] + ms[-2:]
+        if name in QUICK_SHORT: ms = [ms[1], ms[dim + 1], ms[dim + 2], ms[dim + 4]]   # E_01, E_0d(-1), big[0], big[2]
     else:
         ms = [bv.mkey(M) for M in bv.redescriptions(dim, 'quick' if name in THOROUGH_SHORT else 'thorough')]
     return ['cat'] + ms
@@ -99,7 +101,7 @@ def BOUNDS(tier):
     d3 = [bv.mkey(M) for M in bv.redescriptions(3, tier)]
     d2 = [bv.mkey(M) for M in bv.redescriptions(2, tier)]
     return {'crystals': all_names(), 'redescriptions_3d': ['cat'] + d3, 'redescriptions_2d': ['cat'] + d2,
-            'fewer_redescriptions': ({n: matrices_for(n, 3, 'quick') for n in sorted(QUICK_SKIP_BIG)} if tier == 'quick' else
+            'fewer_redescriptions': ({'crystals': sorted(QUICK_SHORT), 'list': matrices_for('NBO', 3, 'quick')} if tier == 'quick' else
                                      {'crystals': sorted(THOROUGH_SHORT), 'list': matrices_for('NBO', 3, 'thorough')}),
             'species': 'every species of every crystal',
             'cutoff': 'midpoint of (0,d1),(d1,d2),...,(d4,d5); d_k = k-th distinct same-species neighbour distance '
